@@ -307,8 +307,8 @@ typedef AddressRange<IPv6Address> IPv6Range;
  */
 template<size_t n>
 AddressRange<HWAddress<n> > operator/(const HWAddress<n>& addr, int mask) {
-    if (mask > 48) {
-        throw std::logic_error("Prefix length cannot exceed 48");
+    if (mask < 0 || mask > 48) {
+        throw std::logic_error("Prefix length cannot be negative or exceed 48");
     }
     HWAddress<n> last_addr;
     typename HWAddress<n>::iterator it = last_addr.begin();
